@@ -6,7 +6,7 @@
    The behaviour of the pinned 3.2.4 tree is kept as explicit "old" functions with their refutations. *)
 From Coq Require Import List ZArith NArith Bool.
 From PP Require Import Model.Str Model.Results Model.ResultsAPI Model.ResultsSpec Model.ResultsHeap
-                       Proofs.ResultsProofs Proofs.ResultsHeapProofs.
+                       Proofs.ResultsProofs Proofs.ResultsHeapProofs Proofs.FromDictProofs.
 Import ListNotations.
 
 (* ------------------------------------------------------------------------------------------------------ *)
@@ -135,9 +135,60 @@ Theorem C11_deepcopy_method_refuted : exists h r fuelc h1 d path t m fuel,
 Proof. exact deepcopy_method_refuted. Qed.
 
 (* ------------------------------------------------------------------------------------------------------ *)
-(* from_dict — NOT proved in general (see notes/C11.md): closed instances of the round trip and the exact boundary   *)
-(* of its hypothesis (keys: non-empty str; values: str/int/bool/None, lists of anything, NON-EMPTY nested dicts)     *)
+(* from_dict: "ParseResults.from_dict(d).as_dict() == d for nested dicts (non-empty) of scalars and lists"        *)
 (* ------------------------------------------------------------------------------------------------------ *)
+(* The round trip for ALL dictionaries of the decidable class `dict_ok` (Proofs/FromDictProofs.v):
+     keys      non-empty strings, pairwise distinct at every level.  Distinctness is a hypothesis only because the model writes a
+               dict as the association list that `other.items()` yields; every real Python dict satisfies it;
+     values    str / int / bool / None (`PV (TStr _ | TInt _ | TBool _ | TNone)`), a list (`PV (TList l)`, empty included) whose
+               elements are anything but a ParseResults (nested plain lists are fine: `to_item` returns them as they are), or a
+               NON-EMPTY nested dict (`PD d`, d <> [], recursively in the class);
+     top level the dict itself may be empty.
+   `ddict_of d` is d written as a value of as_dict(): a list is `DList` of its elements, a dict `DDict` of its values.
+   _partial: EXCLUDED from the statement (each with a witness in `C11_from_dict_boundary_refuted` /
+   `C11_from_dict_outside_class_refuted` below) are a nested EMPTY dict (comes back as []), an empty key (dropped), a list with a
+   ParseResults element (comes back as a list / dict); NOT REPRESENTABLE in `pyval` at all: non-str keys (int keys become str),
+   tuples / other iterables as values (a tuple (1,2) comes back as [(1,2)]), dicts inside lists (come back equal, by identity). *)
+Theorem C11_from_dict_partial : forall d, dict_ok d = true -> as_dict (from_dict d) = ddict_of d.
+Proof. exact from_dict_roundtrip. Qed.
+
+(* the result itself, in closed form (needs only the key conditions and no ParseResults value at the top level): one token per
+   item, every key with a single occurrence at the position of its token, no list-all names, no name *)
+Theorem C11_from_dict_shape : forall d,
+  keys_ok (map fst d) = true -> forallb (fun kv => not_pr (snd kv)) d = true ->
+  from_dict d = PR (map (fun kv => item_tok (fst kv) (snd kv)) d) (named_items 0 d) [] None true.
+Proof. exact from_dict_concrete. Qed.
+
+(* the keys come back in the order of the dict *)
+Theorem C11_from_dict_keys : forall d, dict_ok d = true -> keys (from_dict d) = map fst d.
+Proof. exact from_dict_keys. Qed.
+
+(* the instance below is in the class, and the theorem gives its round trip *)
+Example C11_from_dict_partial_instance :
+  let d := [([97%N], PV (TStr [118%N]));
+            ([98%N], PD [([99%N], PV (TInt 3%Z)); ([100%N], PV (TList [TStr [112%N]; TInt 1%Z]))]);
+            ([101%N], PV TNone); ([102%N], PV (TList []))] in
+  dict_ok d = true /\
+  as_dict (from_dict d) = ddict_of d /\
+  ddict_of d = [([97%N], DTok (TStr [118%N]));
+                ([98%N], DDict [([99%N], DTok (TInt 3%Z)); ([100%N], DList [DTok (TStr [112%N]); DTok (TInt 1%Z)])]);
+                ([101%N], DTok TNone); ([102%N], DList [])].
+Proof.
+  cbv zeta. split; [vm_compute; reflexivity|]. split; [apply C11_from_dict_partial; vm_compute; reflexivity|vm_compute; reflexivity].
+Qed.
+
+(* outside the class the round trip fails: each condition of `dict_ok` is needed *)
+Theorem C11_from_dict_outside_class_refuted :
+  (* a nested empty dict *)
+  (let d := [([97%N], PD [])] in dict_ok d = false /\ as_dict (from_dict d) <> ddict_of d) /\
+  (* an empty key *)
+  (let d := [([], PV (TInt 1%Z))] in dict_ok d = false /\ as_dict (from_dict d) <> ddict_of d) /\
+  (* a ParseResults inside a list value *)
+  (let d := [([97%N], PV (TList [TPR (pr_of_list [TInt 1%Z])]))] in dict_ok d = false /\ as_dict (from_dict d) <> ddict_of d) /\
+  (* a repeated key: possible in an association list only, never in a Python dict *)
+  (let d := [([97%N], PV (TInt 1%Z)); ([97%N], PV (TInt 2%Z))] in dict_ok d = false /\ as_dict (from_dict d) <> ddict_of d).
+Proof. repeat split; vm_compute; try reflexivity; discriminate. Qed.
+
 (* {'a': 'v', 'b': {'c': 3, 'd': ['p', 1]}, 'e': None, 'f': []}  round-trips (a list value comes back as the list of its items) *)
 Example C11_from_dict_instance :
   as_dict (from_dict [([97%N], PV (TStr [118%N]));
